@@ -174,25 +174,25 @@ void WriteRecordHeader(
     } else if ((*Header == FileHeaderDataRec) || (*Header == FileHeaderRDataRec)) {
         if ((*Segment != SegCode) || (*Gran != Granularity(*CPU, *Segment))
             || (*CPU >= 0x80)) {
-            if (fwrite(Header, 1, 1, f)) {
+            if (fwrite(Header, 1, 1, f) != 1) {
                 ChkIO(Name);
             }
-            if (fwrite(CPU, 1, 1, f)) {
+            if (fwrite(CPU, 1, 1, f) != 1) {
                 ChkIO(Name);
             }
-            if (fwrite(Segment, 1, 1, f)) {
+            if (fwrite(Segment, 1, 1, f) != 1) {
                 ChkIO(Name);
             }
-            if (fwrite(Gran, 1, 1, f)) {
+            if (fwrite(Gran, 1, 1, f) != 1) {
                 ChkIO(Name);
             }
         } else {
-            if (fwrite(CPU, 1, 1, f)) {
+            if (fwrite(CPU, 1, 1, f) != 1) {
                 ChkIO(Name);
             }
         }
     } else {
-        if (fwrite(CPU, 1, 1, f)) {
+        if (fwrite(CPU, 1, 1, f) != 1) {
             ChkIO(Name);
         }
     }
